@@ -174,15 +174,18 @@ def run(ctx, props, mine, known, names, what):
     own = [m for m in mon if m[2] in mine or m[2] in known]
     cov.update({
         "evaluations": rep["steps"], "distinct_nontrivial": rep["distinct_cases"],
-        "rule": "whole-application runs (real app.App through ABCI, Replica): replays of the recorded findings (all fixed: expected to HOLD) + 8 witnesses (incl. a transaction refused in the fee step after its handler ran, followed at once by a spend from the account it had credited; several unstakes of one delegator in one block through maturity and withdrawal; a self-staking candidate with a foreign public key + junk in signature slot 0) + the 5 directed "
+        "rule": "whole-application runs (real app.App through ABCI, Replica): replays of the recorded findings (all fixed: expected to HOLD) + 10 witnesses (incl. a reward withdrawal that matures while the delegation pool is empty, with and without a CheckTx as the last call before each block; a transaction refused in the fee step after its handler ran, followed at once by a spend from the account it had credited; several unstakes of one delegator in one block through maturity and withdrawal; a self-staking candidate with a foreign public key + junk in signature slot 0) + the 5 directed "
                 "scenarios + adversarial-amount histories (22 value-moving kinds incl. self-staked STAKE/UNSTAKE/WITHDRAW; per kind also a pair 'refused in the fee step (gas limit 1) after a successful handler / SEND by the account it touched last of more than, and of nearly all, it owns', and signature lists with a foreign key + junk in the first / last slot at a high fee price; x amounts {-2^64,-1,0,1,base-1,base,base+1,2^63-1,2^63,2^64-2,2^64,"
                 "2^64+1,10^40} relative to the observed source record x currencies {OLT,ETH,unregistered,empty}; every address field replaced by "
                 "other accounts, signed by the rightful signers / the attacker / the named account) + seeded random histories over ~35 kinds incl. OLVM "
                 "(genHistory); evaluations = ABCI steps (BeginBlock, DeliverTx, EndBlock) whose decoded ledger change was judged by the monitors; "
-                "distinct = distinct histories",
+                "distinct = distinct histories. Mempool policy of every generated history: blocks cycle through delivered-without-CheckTx / CheckTx of every "
+                "transaction on the same replica right before the block / CheckTx, then an unrelated block, then the delivery (mempool_histogram counts them, "
+                "forged transactions separately); random histories and the adversarial stream end with / contain 'reward withdrawal, then EVERY delegator "
+                "undelegates everything' run past the maturities",
         "traces_validated_against_impl": rep["cases"], "blocks": rep["blocks"], "txs": rep["txs"], "tx_ok": rep["tx_ok"], "tx_fail": rep["tx_fail"],
         "kind_histogram": rep["kind_histogram"], "outcome_histogram": rep["outcome_histogram"], "source_histogram": rep["source_histogram"],
-        "adversarial_histogram": rep["adversarial_histogram"], "decoded_prefix_histogram": rep["decoded_prefix_histogram"],
+        "adversarial_histogram": rep["adversarial_histogram"], "mempool_histogram": rep["mempool_histogram"], "decoded_prefix_histogram": rep["decoded_prefix_histogram"],
         "undecoded_keys": len(rep["unknown_keys"] or []), "undecodable_values": len(rep["undecodable_values"] or []),
         "max_ledger_records": rep["max_ledger_records"], "max_owners": rep["max_owners"],
         "modelled_steps": rep["modelled_steps"], "modelled_histogram": rep["modelled_histogram"],
@@ -201,7 +204,11 @@ def run(ctx, props, mine, known, names, what):
     if rep["unknown_keys"] or rep["undecodable_values"]:
         raise Broken("the decoder met state records it does not recognise (the ledger would be incomplete)",
                      json.dumps({"unknown": rep["unknown_keys"][:20], "undecodable": rep["undecodable_values"][:20]}))
+    cov["crashed_cases"] = rep.get("crashed_cases") or []
     stats = judge(ctx, cases, mon, corr, mine, known, names)
+    if cov["crashed_cases"] and ctx.violations == 0:
+        raise Broken("the application panicked while running a history (C18's matter) and the monitors found no failing input of this property",
+                     json.dumps(cov["crashed_cases"][:5]))
     cov["known_finding_cases"] = {k: len(v) for k, v in stats["known"].items()}
     if broken is not None and ctx.violations == 0:
         raise broken
